@@ -14,6 +14,7 @@ import QModel.SchedIO
 import QModel.VerletIO
 import QModel.ConstraintsIO
 import QModel.SerialIO
+import QModel.ResultsDictIO
 /-! Model driver: one operation per line on stdin, one canonical result line on stdout.
     Run with `lake env lean --run Driver.lean`. -/
 
@@ -24,6 +25,7 @@ def dispatch (line : String) : String :=
     if cmd = "alg" || cmd = "oalg" || cmd = "callplain" then Alg.handle ws
     else if cmd = "mm" then MM.handle ws
     else if cmd.startsWith "ri." || cmd.startsWith "at." || cmd = "mol" || cmd = "molg" then RI.handle ws
+    else if cmd = "rdict" then RDict.handle ws
     else if cmd = "c18direct" || cmd = "c18run" then AFB.handle ws
     else if cmd = "ops" then Ops.handle ws
     else if cmd = "crit" || cmd = "crit-raw" then Crit.IO.handle ws
